@@ -279,6 +279,8 @@ def run(chk):
                      "#ruledef\n{\n    e {x: u64} => x\n}\ne %s\n" % m_, "#ruledef\n{\n    e {x: s64} => x\n}\ne -%s\n" % m_]
         for sz in ("0x1ffffffffffffffe", "0x1fffffffffffffff", "0xfffffffffffffff"):
             edge.append("#bankdef a { #addr 0, #size %s, #outp 0x20 }\n#bankdef b { #addr 0, #size 2, #outp 0x40 }\n#bank a\n#d8 0xaa\n#bank b\n#d8 0xbb\n" % sz)
+        import c19_families
+        edge += c19_families.word_edge_positions()
         eops = [fw.asm_op([("main.asm", t)]) for t in edge]
         emodel = fw.run_model(eops, "c03e", timeout=600)
         for i, (t, ml) in enumerate(zip(edge, emodel)):
